@@ -11,6 +11,7 @@ import (
 	"fmt"
 	"io/ioutil"
 	"log"
+	"math/big"
 	"math/rand"
 	"sort"
 	"strings"
@@ -24,26 +25,28 @@ import (
 	"gopkg.in/src-d/hercules.v10/verifharness/hv"
 )
 
-func hnum(h plumbing.Hash) int { return int(h[0])<<16 | int(h[1])<<8 | int(h[2]) }
+// hnum: the 20 bytes as one big-endian number (decimal string), so that numeric order = lexicographic byte order
+func hnum(h plumbing.Hash) string { return new(big.Int).SetBytes(h[:]).String() }
 
-func join(xs []int) string {
+func join(xs []string) string {
 	if len(xs) == 0 {
 		return "-"
 	}
-	sort.Ints(xs)
-	s := make([]string, len(xs))
-	for i, x := range xs {
-		s[i] = fmt.Sprint(x)
-	}
-	return strings.Join(s, ",")
+	sort.Slice(xs, func(i, j int) bool {
+		if len(xs[i]) != len(xs[j]) {
+			return len(xs[i]) < len(xs[j])
+		}
+		return xs[i] < xs[j]
+	})
+	return strings.Join(xs, ",")
 }
 
 type chg struct {
 	Kind string // add del mod
 	Name string
-	Hash int
+	Hash string
 	Size int
-	To   int
+	To   string
 }
 
 func main() {
@@ -69,14 +72,20 @@ func main() {
 		var contents []content
 		for i := 0; i < nContents; i++ {
 			var h plumbing.Hash
-			// first three bytes from a tiny alphabet: many pairs are ordered differently byte-wise
-			for k := 0; k < 3; k++ {
+			// a few byte positions from a tiny alphabet: many pairs are ordered differently byte-wise, and many
+			// pairs share a long common prefix (1, 8, 12 or 19 bytes) and differ only later
+			for _, k := range []int{0, 1, 2, 8, 12, 19} {
 				h[k] = byte(1 + rng.Intn(3))
 			}
-			h[19] = byte(i) // distinct contents have distinct hashes, order decided by the first bytes
+			if rng.Intn(2) == 0 {
+				h[0], h[1], h[2] = 1, 1, 1 // common prefix
+				if rng.Intn(2) == 0 {
+					h[8] = 1
+				}
+			}
 			dup := false
 			for _, c := range contents {
-				if hnum(c.h) == hnum(h) {
+				if c.h == h {
 					dup = true
 				}
 			}
@@ -105,7 +114,7 @@ func main() {
 		var changes object.Changes
 		delCount, addCount := map[plumbing.Hash]int{}, map[plumbing.Hash]int{}
 		var delNames, addNames, modNames []string
-		var addH, delH []int
+		var addH, delH []string
 		var desc []chg
 		n := 1 + rng.Intn(9)
 		for i := 0; i < n; i++ {
@@ -117,13 +126,13 @@ func main() {
 				delCount[c.h]++
 				delNames = append(delNames, name)
 				delH = append(delH, hnum(c.h))
-				desc = append(desc, chg{"del", name, hnum(c.h), len(c.data), 0})
+				desc = append(desc, chg{"del", name, hnum(c.h), len(c.data), ""})
 			case 2, 3:
 				changes = append(changes, &object.Change{To: object.ChangeEntry{Name: name, TreeEntry: object.TreeEntry{Name: name, Hash: c.h}}})
 				addCount[c.h]++
 				addNames = append(addNames, name)
 				addH = append(addH, hnum(c.h))
-				desc = append(desc, chg{"add", name, hnum(c.h), len(c.data), 0})
+				desc = append(desc, chg{"add", name, hnum(c.h), len(c.data), ""})
 			case 4:
 				c2 := contents[rng.Intn(len(contents))]
 				changes = append(changes, &object.Change{
@@ -160,7 +169,7 @@ func main() {
 		}
 		out := res[items.DependencyTreeChanges].(object.Changes)
 		var gotDel, gotAdd, gotMod []string
-		var mH, saH, sdH []int
+		var mH, saH, sdH []string
 		exact := map[plumbing.Hash]int{}
 		for _, c := range out {
 			a, _ := c.Action()
@@ -215,7 +224,7 @@ func main() {
 				stats["shared-hashes"]++
 			}
 			if exact[h] < m {
-				fail(fmt.Sprintf("exact renames for hash %d: %d < min(%d,%d)", hnum(h), exact[h], d, addCount[h]))
+				fail(fmt.Sprintf("exact renames for hash %s: %d < min(%d,%d)", hnum(h), exact[h], d, addCount[h]))
 				break
 			}
 		}
